@@ -2,6 +2,7 @@ import RimeModel.C14.Lemmas
 import RimeModel.C14.CompileLemmas
 import RimeModel.C14.Doc
 import RimeModel.C14.Scheme
+import RimeModel.C14.Custom
 /-!
 # C14 — config compiler: includes copy, patches apply in order, sources stay untouched
 
@@ -322,7 +323,57 @@ theorem circular_guards_chain (chain : RChain) (n : NodeId) (e : CEntry) (he : e
   rw [List.any_eq_true]
   exact ⟨e, he, by simp [hid, isPrefixOf_refl]⟩
 
+/-! ## the producer of the automatic patch: `CustomSettings` -/
+
+/-- `patch` is an ordinary map key -/
+theorem plainKey_patch : PlainKey kPatchKey := ⟨by decide, by decide, by decide, by decide, by decide⟩
+
+/-- `Config::SetItem(k, v)` (= `ConfigData::TraverseWrite`) with one plain map key on a map root sets that entry -/
+theorem traverseWrite_plain {k : Str} (h : PlainKey k) (kvs : Entries) (v : Tree) :
+    traverseWrite (.map kvs) k v = (.map (mapSet kvs k v), true) := by
+  simp [traverseWrite, traverseCow_plain h, assign, setC_one_map h, ER.good]
+
+/-- `TraverseWrite` is the traversal of `EditNode` for a key without operator: writing a customization directly and
+applying it as a one-entry patch literal give the same tree -/
+theorem traverseWrite_eq_editNode {k : Str} (h : PlainKey k) (kvs : Entries) (v : Tree) :
+    (traverseWrite (.map kvs) k v).1 = (editNode (.map kvs) [] k v false).base := by
+  rw [traverseWrite_plain h]
+  unfold editNode
+  simp [isAppending_plain h, isMerging_plain_nomt h, stripOperator_plain h, traverseCow_plain h, assign, setC_one_map h, ER.good]
+
+/-- `Customize(key, item)` on a custom document that has a `patch` map: `key` — taken as ONE map key, slashes and all —
+is set to `item` in that map; the other patch entries and the other top-level entries stay -/
+theorem customize_sets_patch_key (kvs p : Entries) (hp : mapGet kvs kPatchKey = .map p) (key : Str) (item : Tree) :
+    customizeOne (.map kvs) key item = .map (mapSet kvs kPatchKey (.map (mapSet p key item))) := by
+  simp [customizeOne, traverse1, hp, Tree.asMap, traverseWrite_plain plainKey_patch]
+
+/-- … and on one whose `patch` is missing or not a map: a new one-entry patch map replaces it -/
+theorem customize_fresh (kvs : Entries) (hp : (mapGet kvs kPatchKey).isMap = false) (key : Str) (item : Tree) :
+    customizeOne (.map kvs) key item = .map (mapSet kvs kPatchKey (.map [(key, item)])) := by
+  have : (mapGet kvs kPatchKey).asMap = none := by
+    cases h : mapGet kvs kPatchKey <;> simp_all [Tree.asMap, Tree.isMap]
+  simp [customizeOne, traverse1, this, traverseWrite_plain plainKey_patch, mapSet]
+
+/-- … and with no custom document at all: the document `{patch: {key: item}}` -/
+theorem customize_no_file (key : Str) (item : Tree) :
+    customizeOne .null key item = .map [(kPatchKey, .map [(key, item)])] := by
+  simp [customizeOne, traverse1, Tree.asMap, traverseWrite, traverseCow, kPatchKey, c_slash, splitPath, Str.trimLeft,
+    Str.splitOn, traverseKeys, typeChecked, getC, Tree.isNull, assign, setC, writeKey, isListItemReference, c_at, mapSet, ER.good]
+
+/-- what the compiler's automatic patch reads afterwards: `patch` with `key` set to `item`, every other key as before -/
+theorem customize_read_back (kvs p : Entries) (hp : mapGet kvs kPatchKey = .map p) (key : Str) (item : Tree) :
+    traverse1 (customizeOne (.map kvs) key item) kPatchKey = .map (mapSet p key item) := by
+  rw [customize_sets_patch_key kvs p hp]
+  simp [traverse1, mapGet_mapSet_same]
+
 /-! ## non-vacuity: the hypotheses above are met by concrete, non-trivial values -/
+
+-- a whole CustomSettings session on a name without custom document: signed and saved
+example : ((customSession none [([103], [118])] [([107], .scalar [118])]).file.getD .null).beq
+    (.map [(kCustomization, .map [([103], .scalar [118])]), (kPatchKey, .map [([107], .scalar [118])])]) = true := by decide
+
+-- nothing customized: nothing saved
+example : (customSession none [([103], [118])] []).saved = false := by decide
 
 example : PlainKey Ex.kA := ⟨by decide, by decide, by decide, by decide, by decide⟩
 
